@@ -621,7 +621,7 @@ def run_blk(inp):
     out = []
     probs = []
     if which == "bh":
-        d = rng.choice([2, 3, 4])
+        d = rng.choice([x for x in (2, 3, 4) if x**L <= 1100] or [2])  # keep the dense reference small
         omega, J, U = rng.uniform(0.3, 1.5), rng.uniform(0.2, 0.9), rng.uniform(0.1, 0.8)
         mpo = MPO.bose_hubbard(L, d, omega, J, U)
         a = Destroy(d).matrix.astype(complex)
@@ -641,7 +641,8 @@ def run_blk(inp):
         except ValueError as e:
             probs.append(f"bose_hubbard(L={L}, d={d}).to_matrix() raised ValueError: {e}; shapes {[t.shape for t in mpo.tensors]}")
     else:
-        dq, dr = rng.choice([2, 3]), rng.choice([2, 3, 4])
+        cands = [(x, y) for x in (2, 3) for y in (2, 3, 4) if x ** ((L + 1) // 2) * y ** (L // 2) <= 1100]
+        dq, dr = rng.choice(cands or [(2, 2)])  # keep the dense reference small
         wq, wr, al, g = rng.uniform(0.5, 1.5), rng.uniform(0.5, 1.5), -rng.uniform(0.05, 0.4), rng.uniform(0.1, 0.6)
         mpo = MPO.coupled_transmon(L, dq, dr, wq, wr, al, g)
         b = Destroy(dq).matrix.astype(complex)
